@@ -31,10 +31,10 @@ KEY_PP = "fov-mask-pure-phase-amplitude"
 KEY_RE = "fov-mask-reapply-amplitude"
 
 # ---- tolerances (float32 / complex64 code under test) --------------------------------------------
-# "measured" = largest clean-tree deviation over 2 x 52 000 thorough-scale cases (seed 1, workers 0/1)
-EPS_AMP = 1e-5  # |o| <= 1 + EPS_AMP, ||o| - 1| <= EPS_AMP               (measured 9.9e-8 / 4.3e-8)
+# "measured" = largest clean-tree deviation over 3 x 52 000 thorough-scale cases (seeds 1 and 7)
+EPS_AMP = 1e-5  # |o| <= 1 + EPS_AMP, ||o| - 1| <= EPS_AMP               (measured 1.1e-7 / 4.3e-8)
 EPS_IDEM = 1e-5  # | |C(C(x))| - |C(x)| | <= EPS_IDEM, amplitudes <= 1    (measured 1.3e-7)
-RT_INT = 1e-5  # relative: mode intensities / total intensity / weights   (measured 4.5e-7 / 5.1e-7 / 4.2e-7)
+RT_INT = 1e-5  # relative: mode intensities / total intensity / weights   (measured 4.8e-7 / 5.1e-7 / 4.2e-7)
 # relative Gram off-diagonal <= ORTH_FLOOR + ORTH_K * eps32 * cond(C): classical Gram-Schmidt loses
 # orthogonality like eps * cond(A)^2 = eps * cond(C), C the prescribed correlation matrix of the input
 # modes.  Measured <= 0.55 * eps32 * cond(C) for every structure (6.6e-8 at cond 1, 2.3e-6 at five
